@@ -655,7 +655,7 @@ def check_property(prop, jobs, tier, meta):
         random.Random(seed).shuffle(jobs)
     # heavy jobs first
     jobs.sort(key=lambda j: -j.timeout)
-    replay_root = os.path.join(VERIF, "replay", prop)
+    replay_root = os.path.join(os.environ.get("VERIF_REPLAY_DIR") or os.path.join(VERIF, "replay"), prop)
     known = load_known(prop)
     results = {}
     with ThreadPoolExecutor(max_workers=NPROC) as ex:
@@ -751,8 +751,9 @@ def check_property(prop, jobs, tier, meta):
     }
     if ev["level"] == "other" and not ev["coverage"]["explanation"]:
         ev["coverage"]["explanation"] = "see DESIGN.md"
-    os.makedirs(os.path.join(VERIF, "evidence"), exist_ok=True)
-    with open(os.path.join(VERIF, "evidence", prop + ".json"), "w") as f:
+    evdir = os.environ.get("VERIF_EVIDENCE_DIR") or os.path.join(VERIF, "evidence")
+    os.makedirs(evdir, exist_ok=True)
+    with open(os.path.join(evdir, prop + ".json"), "w") as f:
         json.dump(ev, f, indent=1, default=str)
     print("[%s] tier=%s jobs=%d proof-obligations=%d discharged=%d bounded-jobs=%d undecided=%d violations=%d wall=%.0fs"
           % (prop, tier, len(jobs), ev["coverage"]["obligations"], discharged, len(bounded), len(undecided),
